@@ -26,9 +26,13 @@ def run(R):
               "sub-sample that covers ALL samples in random order (1.0, integer 1, 'fast', or the estimator's default when the argument is omitted), "
               "opacity bounds (lower 0 or 0.25, upper 1 or 0.75), seeds, K/baseline. On dreye's (X, P, B_pred): bounds, mask zeros, equal layer totals, opacity "
               "bounds, B_pred = P X A'^T + baseline, the hook-recorded loss sequence is non-increasing (within solver slack), the "
-              "same seed gives the same arrays when the call is repeated with the caller's same target array (and estimator), and the factor fitted last is optimal given the other: opacities by the exact KKT "
+              "same seed gives the same arrays when the call is repeated with the caller's same target array (and estimator) -- directly, or after ANOTHER legitimate call on the same data "
+              "in between (other seed, solver options passed through **opt_kwargs, the default solver) --, and the factor fitted last is optimal given the other: opacities by the exact KKT "
               "check per sample in the caller's sample order (row i of P against row i of the targets), intensities by a certified gap from LP multipliers through the verified linLower. Non-trivial: "
-              "a mask containing zeros, or >= 2 layers with the equal-L1 constraint.")
+              "a mask containing zeros, or >= 2 layers with the equal-L1 constraint. "
+              "The fully judged calls name the interior-point solver; every second case additionally runs the same request with the DEFAULT solver (argument omitted, or "
+              "solver='SCS' spelled out; first-order, accuracy 1e-4): call, a call with pass-through solver options (iteration budget / looser or tighter eps) or another seed, "
+              "the first call again. On these: the repeated call returns byte-identical arrays, B_pred = P X A'^T + baseline, bounds / mask / equal totals / opacity bounds within 2e-3 (solver accuracy).")
     masks_all = {}
     jobs = []
     for ci in range(ncase):
@@ -100,14 +104,43 @@ def run(R):
         if via == "estimator":
             filt = np.hstack([np.zeros((nf, 1)), A, np.zeros((nf, 1))]); src = np.hstack([np.zeros((ns, 1)), np.eye(ns), np.zeros((ns, 1))])
             stE, est = call(dreye.ReceptorEstimator, filt, domain=1.0, K=(1.0 if K is None else K), baseline=base, sources=src, lb=lb, ub=ub)
-            fit = (lambda stE=stE, est=est: (stE, est)) if stE != "ok" else (lambda est=est, kw=kw, Bg=Bg: call(est.fit_decomposition, Bg, **kw))
+            fit = (lambda kw, stE=stE, est=est: (stE, est)) if stE != "ok" else (lambda kw, est=est, Bg=Bg: call(est.fit_decomposition, Bg, **kw))
         else:
-            fit = lambda kw=kw, A=A, Bg=Bg, lb=lb, ub=ub, K=K, base=base: call(lsq_linear_decomposition, A, Bg, lb=lb, ub=ub, K=K, baseline=base, return_pred=True, **kw)
-        st, out = fit()
+            fit = lambda kw, A=A, Bg=Bg, lb=lb, ub=ub, K=K, base=base: call(lsq_linear_decomposition, A, Bg, lb=lb, ub=ub, K=K, baseline=base, return_pred=True, **kw)
+        # ---- call history (own random stream). The repeated call must give the same arrays whether or not another legitimate call
+        # on the same data (same estimator) happened in between: other seed, solver options passed through **opt_kwargs, other solver
+        hr = R.rng(5, ci)
+        between = str(hr.choice(["nothing", "other-seed", "solver-options", "default-solver"]))
+        c["between_calls"] = between; R.count("between the two identical calls:%s" % between)
+        st, out = fit(kw)
         ev = [e for e in drain() if e["event"] == "decomp_iter"]
-        st2, out2 = fit()
+        if between == "other-seed":
+            fit(dict(kw, seed=seed + 1))
+        elif between == "solver-options":
+            fit(dict(kw, **[dict(tol_gap_abs=1e-4, tol_gap_rel=1e-4, tol_feas=1e-4), dict(tol_gap_rel=1e-10), dict(equilibrate_enable=False)][int(hr.integers(3))]))
+        elif between == "default-solver":
+            fit({a: b for a, b in kw.items() if a != "solver"})
+        st2, out2 = fit(kw)
         drain()
-        jobs.append(dict(c=c, st=st, out=out, ev=ev, st2=st2, out2=out2, Ap=Ap, bp=bp))
+        job = dict(c=c, st=st, out=out, ev=ev, st2=st2, out2=out2, Ap=Ap, bp=bp)
+        jobs.append(job)
+        # ---- the same request with the DEFAULT solver (every second case): call / another call with pass-through solver options / call again
+        if hr.integers(2) == 0:
+            kwS = {a: b for a, b in kw.items() if a != "solver"}
+            spelled = bool(hr.integers(3) == 0)
+            if spelled:
+                kwS["solver"] = "SCS"
+            betweenS = str(hr.choice(["nothing", "other-seed", "iteration-budget", "iteration-budget", "loose-eps", "tight-eps"]))
+            extra = {"nothing": None, "other-seed": dict(seed=seed + 1), "iteration-budget": dict(max_iters=int(hr.choice([3, 10, 50]))),
+                     "loose-eps": dict(eps=1e-2), "tight-eps": dict(eps=1e-6, max_iters=20000)}[betweenS]
+            R.count("default solver:%s" % ("spelled out" if spelled else "argument omitted"))
+            R.count("default solver, between the two identical calls:%s" % betweenS)
+            s1 = fit(kwS)
+            sb = fit(dict(kwS, **extra)) if extra is not None else None
+            s2 = fit(kwS)
+            drain()
+            job["scs"] = dict(solver=("SCS" if spelled else "omitted"), between=betweenS, between_options=extra, between_status=(None if sb is None else sb[0]), s1=s1, s2=s2)
+            c["default_solver_history"] = dict(solver=job["scs"]["solver"], between=betweenS, between_options=extra)
     rowsP = []
     for job in jobs:
         c = job["c"]
@@ -170,7 +203,29 @@ def run(R):
         if inc and max(inc) > 1e-4 * sc:
             R.failB(dict(c, losses=losses), "the fitting error increased during the alternating optimisation: %s" % losses, sig + ":not-descending")
         if job["st2"] != "ok" or any(not np.array_equal(np.asarray(a), np.asarray(b)) for a, b in zip(job["out"], job["out2"])):
-            R.failB(dict(c), "the same seed gave a different result", sig + ":seed")
+            R.failB(dict(c), "the same seed gave a different result (between the two identical calls: %s)" % c["between_calls"], sig + ":seed")
+        # the same request with the default solver: determinism over the history, and the constraints within the solver's accuracy
+        if "scs" in job:
+            h = job["scs"]; (sa, oa), (sb_, ob) = h["s1"], h["s2"]
+            sigS = sig + ":default-solver"
+            tolS = 2e-3
+            if sa != "ok":
+                R.failB(dict(c, impl_error=oa), "decomposition with the default solver raised %s: %s" % (sa, oa), sigS + ":raises:" + sa)
+            else:
+                XS, PS, BS = [np.asarray(o) for o in oa]
+                if sb_ != "ok" or any(not np.array_equal(np.asarray(a), np.asarray(b)) for a, b in zip(oa, ob)):
+                    R.failB(dict(c, first=[XS, PS], again=(ob if sb_ != "ok" else [np.asarray(ob[0]), np.asarray(ob[1])])),
+                            "default solver: the same seed gave a different result when the identical call was repeated (in between: %s %s)" % (h["between"], h["between_options"] or ""), sigS + ":seed")
+                if PS.shape != (c["size"], c["n_layers"]) or XS.shape != (c["n_layers"], c["ns"]) or np.max(np.abs(BS - (PS @ XS @ Ap.T + bp))) > 1e-9 * (np.max(np.abs(BS)) + 1):
+                    R.failB(dict(c, impl=[XS, PS, BS]), "default solver: fitted capture is not the model's capture of opacities x intensities", sigS + ":pred-mismatch")
+                elif np.any(XS < c["lb"] - tolS) or np.any(XS > c["ub"] + tolS):
+                    R.failB(dict(c, impl=XS), "default solver: layer intensities violate the source bounds", sigS + ":bounds")
+                elif c["mask"] is not None and np.any(np.abs(XS[c["mask"] == 0]) > tolS):
+                    R.failB(dict(c, impl=XS), "default solver: a masked-out source has non-zero intensity %.3g" % float(np.max(np.abs(XS[c["mask"] == 0]))), sigS + ":mask")
+                elif c["n_layers"] > 1 and c["equal_l1"] and np.max(np.abs(np.diff(XS.sum(1)))) > tolS:
+                    R.failB(dict(c, impl=XS, layer_totals=XS.sum(1)), "default solver: layer totals are not equal: %s" % XS.sum(1).tolist(), sigS + ":equal-l1")
+                elif np.any(PS < c["lbp"] - tolS) or np.any(PS > c["ubp"] + tolS):
+                    R.failB(dict(c, impl=PS), "default solver: opacities outside their bounds", sigS + ":opacity-bounds")
         # last factor optimal
         if c["subsample_in_effect"]:
             for r_ in [r for r in rowsP if r["job"] is job]:
